@@ -163,6 +163,10 @@ func (c *Channel) Deliver(out, x []byte) ([]byte, error) {
 			}
 			if isApp {
 				appData = out
+				if appData == nil {
+					// an empty message is still application data
+					appData = []byte{}
+				}
 				return nil, nil
 			}
 			if len(out) == 0 {
